@@ -36,6 +36,8 @@ type Prog struct {
 	cg       *callgraph.Graph
 	chaCG    *callgraph.Graph
 	WithCHA  bool
+
+	edgeCache map[*ssa.Function][]*ssa.Function
 }
 
 // Load loads ./... of repoDir. It fails on any type error in a repo package
